@@ -784,6 +784,8 @@ static C10_SET_WEIGHTS: &[(u16, u32)] = &[
     (st::SWAP, 2),
 ];
 
+static C10_LAY_WEIGHTS: &[(u16, u32)] = &[(ly::INSERT, 16), (ly::REMOVE, 4), (ly::RETAIN, 24), (ly::LIFE, 8), (ly::FILL_TO_CAPACITY, 3), (ly::REMOVE_RUN, 3), (ly::GET, 2), (ly::CLEAR, 1)];
+
 fn c10_strategy(tier: Tier) -> BoxedStrategy<Case> {
     let n = if tier == Tier::Quick { 80 } else { 250 };
     union2(
@@ -794,13 +796,19 @@ fn c10_strategy(tier: Tier) -> BoxedStrategy<Case> {
             1,
         ),
         4,
-        union2(set_case_strategy(SetGen { prop: 10, weights: C10_SET_WEIGHTS, max_ops: n, generic_pct: 20, plain_pct: 30 }), BIG_ONE_IN / 5, big_case_strategy(10), 1),
+        union2(
+            union2(set_case_strategy(SetGen { prop: 10, weights: C10_SET_WEIGHTS, max_ops: n, generic_pct: 20, plain_pct: 30 }), BIG_ONE_IN / 5, big_case_strategy(10), 1),
+            2,
+            // element layouts (zero-sized, over-aligned ...): retain by id, extract_if with answers by call index
+            lay_case_strategy(LayGen { prop: 10, weights: C10_LAY_WEIGHTS, max_ops: n, generic_pct: 20 }),
+            1,
+        ),
         1,
     )
 }
 
 fn c10_nontrivial(c: &Case, o: &Outcome) -> bool {
-    c.kind == "big" || o.labels & (L_EXTRACT_CUT | L_DRAIN_CUT) != 0
+    c.kind == "big" || (c.kind == "lay" && o.steps >= 6) || o.labels & (L_EXTRACT_CUT | L_DRAIN_CUT) != 0
 }
 
 pub static C10: PropDef = PropDef {
@@ -993,7 +1001,8 @@ fn c13_strategy(tier: Tier) -> BoxedStrategy<Case> {
             generic_pct: 20,
             plain_pct: 50,
         }),
-        prop_oneof![2 => 1u64..8, 3 => 8u64..40, 2 => 40u64..120, 1 => 120u64..300],
+        // a third of the caps are exactly a table's capacity (fill to the last free slot)
+        prop_oneof![2 => 1u64..8, 3 => 8u64..40, 2 => 40u64..120, 1 => 120u64..300, 4 => proptest::sample::select(vec![3u64, 7, 14, 28, 56, 112, 224])],
     )
         .prop_map(|(mut c, live_cap)| {
             c.set("c13", 1);
@@ -1131,17 +1140,29 @@ static C15_TABLE_WEIGHTS: &[(u16, u32)] = &[
     (t::REMOVE_NTH, 3),
 ];
 
+// every element layout (zero-sized, over-aligned, large): the `get` operation of the layout interpreter
+// calls get_many_mut with one request and with one present plus one absent request (map and table)
+static C15_LAY_WEIGHTS: &[(u16, u32)] = &[(ly::INSERT, 14), (ly::REMOVE, 6), (ly::GET, 30), (ly::FILL_TO_CAPACITY, 2), (ly::REMOVE_RUN, 3), (ly::CLEAR, 1), (ly::CLONE_SWAP, 1)];
+
 fn c15_strategy(tier: Tier) -> BoxedStrategy<Case> {
     let n = if tier == Tier::Quick { 60 } else { 200 };
     union2(
-        map_case_strategy(MapGen { prop: 15, weights: C15_MAP_WEIGHTS, max_ops: n, generic_pct: 20, plain_pct: 30 }),
-        2,
-        table_case_strategy(TableGen { prop: 15, weights: C15_TABLE_WEIGHTS, max_ops: n, generic_pct: 20, plain_pct: 30 }),
+        union2(
+            map_case_strategy(MapGen { prop: 15, weights: C15_MAP_WEIGHTS, max_ops: n, generic_pct: 20, plain_pct: 30 }),
+            2,
+            table_case_strategy(TableGen { prop: 15, weights: C15_TABLE_WEIGHTS, max_ops: n, generic_pct: 20, plain_pct: 30 }),
+            1,
+        ),
+        6,
+        lay_case_strategy(LayGen { prop: 15, weights: C15_LAY_WEIGHTS, max_ops: n, generic_pct: 20 }),
         1,
     )
 }
 
-fn c15_nontrivial(_c: &Case, o: &Outcome) -> bool {
+fn c15_nontrivial(c: &Case, o: &Outcome) -> bool {
+    if c.kind == "lay" {
+        return c.h("coll") != 1 && o.steps >= 4;
+    }
     o.labels & L_MANY_MUT != 0
 }
 
@@ -1149,8 +1170,9 @@ pub static C15: PropDef = PropDef {
     id: "C15",
     rule: "states x N in 0..=4 x key tuples with duplicates, absent and colliding keys (HashMap get_many_mut and \
            get_many_key_value_mut; HashTable get_many_mut with exact and id-only equality closures that can match \
-           several entries); non-zero-sized elements; non-trivial = N >= 2 with at least two present keys, or a tuple \
-           naming the same present entry twice",
+           several entries), N also 9 and 12; one program in seven runs on the element-layout family (zero-sized, \
+           over-aligned, large elements) with N = 1 and N = 2 (one present, one absent); non-trivial = N >= 2 with at \
+           least two present keys, or a tuple naming the same present entry twice",
     level: "exploration",
     cases_quick: 60_000,
     cases_thorough: 1_500_000,
